@@ -407,12 +407,14 @@ def date(year, month_, day):
     # first of that month: Excel's calendar has 1900/02/29 as serial 60
     year += (month_ - 1) // 12
     month_ = (month_ - 1) % 12 + 1
+    if not (dt.MINYEAR <= year <= dt.MAXYEAR):
+        return NUM_ERROR
     result = (dt.datetime(year, month_, 1) - DATE_ZERO).days
     if result <= 60:
         result -= 1
     result += day - 1
 
-    if result < 0:
+    if not (0 <= result < DATE_MAX_INT):
         return NUM_ERROR
     return result
 
